@@ -17,6 +17,12 @@ Headline theorems
 * `C08_struct_exact`, `C08_struct_400`, `C08_no_panic`, `C08_empty`.
 All of them quantify over every text, every destination site, every binder state, every chain
 and every external parser `Ext` (ParseFloat / ParseDuration are parameters).
+
+Round 8 (the NUMBER of values of one parameter; lists of every length)
+* `C08_every_value_counts`: a slice field whose key carries n values holds n conversions in order, or
+  fails as soon as ONE text — at any position — does not fit; `C08_multi_receives_all` (UnmarshalParams).
+* `C08_slice_complete`, `C08_slice_bad_piece_reported`: value-binder slice / delimiter calls: every piece
+  convertible ⇒ all stored, nothing recorded; one bad piece anywhere ⇒ reported, destination untouched.
 -/
 namespace C08
 
@@ -1378,5 +1384,215 @@ example : vbRun noExt ⟨0, false, true, false⟩ [.call exSliceBad, .call exSli
     = [.call (.slice none) 1, .call (.slice none) 0, .errs 1] := by decide +kernel
 -- default ErrorFunc for comparison
 example : vbRun noExt (vb 0 true) [.call exBad, .bindError] = [.call (.scalar (.int 7)) 1, .err true] := by decide +kernel
+
+
+/-! ## round 8: the NUMBER of values (no bound anywhere) -/
+
+/-- the wraps that take every value of their key through `setWithProperType`: `[]T`, `[]*T`, `*[]T` -/
+def Wrap.isList : Wrap → Bool
+  | .slice | .sliceOfPtr | .ptrToSlice => true
+  | _ => false
+
+theorem structElems_length (ext : Ext) (e : Elem) (ss : List (List Char)) (xs : List SVal)
+    (h : structElems ext e ss = some xs) : xs.length = ss.length := by
+  have := congrArg List.length ((structElems_spec ext e ss xs).1 h)
+  simpa using this.symm
+
+/-- **C08_every_value_counts** — a slice field whose key carries `n` values, for EVERY `n`:
+    (1) if the field is accepted it holds exactly `n` elements, the conversions of the `n` texts in order;
+    (2) one text that does not fit, at ANY position — after however many valid ones — makes the field
+        (hence the whole `Bind`, by `C08_struct_400`) fail.  There is no count after which values are
+        neither converted nor reported. -/
+theorem C08_every_value_counts (ext : Ext) (f : Field) (vals : List (List Char))
+    (hw : f.wrap.isList = true) (hv : f.values = some vals) (hne : vals ≠ []) :
+    (∀ v, bindField ext f = .ok v →
+        ∃ xs, v = .many xs ∧ xs.length = vals.length ∧ vals.map (structElem ext f.elem) = xs.map some)
+    ∧ (∀ pre bad post, vals = pre ++ bad :: post → structElem ext f.elem bad = none →
+        ∃ v, bindField ext f = .err v) := by
+  constructor
+  · intro v h
+    have hh := bindField_ok ext f v h
+    unfold fieldHolds at hh
+    simp only [hv] at hh
+    cases hwr : f.wrap <;> simp only [hwr, Wrap.isList, Bool.false_eq_true] at hw hh
+    all_goals
+      obtain ⟨xs, h1, h2⟩ := hh
+      refine ⟨xs, h1, ?_, h2⟩
+      have := congrArg List.length h2
+      simpa using this.symm
+  · intro pre bad post hsplit hbad
+    have hc := bindField_cases ext f (by
+      intro h0; rw [hv] at h0
+      exact absurd (Option.some.inj h0) hne)
+    cases hc with
+    | inl h => exact h.2
+    | inr h =>
+      exfalso
+      apply h.1
+      unfold fieldBad
+      simp only [hv]
+      cases hwr : f.wrap <;> simp only [hwr, Wrap.isList, Bool.false_eq_true] at hw ⊢
+      all_goals exact ⟨bad, by simp [hsplit], hbad⟩
+
+/-- the same for `UnmarshalParams` destinations: accepted ⇒ the destination received ALL values -/
+theorem C08_multi_receives_all (ext : Ext) (f : Field) (vals : List (List Char))
+    (hw : f.wrap = .multi ∨ f.wrap = .ptrMulti) (hv : f.values = some vals) (v : FVal)
+    (h : bindField ext f = .ok v) : v = .many (vals.map .opq) ∧ (vals.map SVal.opq).length = vals.length := by
+  have hh := bindField_ok ext f v h
+  unfold fieldHolds at hh
+  simp only [hv] at hh
+  cases hw with
+  | inl hw => simp only [hw] at hh; exact ⟨hh.1, by simp⟩
+  | inr hw => simp only [hw] at hh; exact ⟨hh.1, by simp⟩
+
+/-- the element loop on a binder without errors and a list (of ANY length) of convertible texts runs to
+    its end, leaves the binder as it was and converts every element -/
+theorem sliceLoop_all_good (ext : Ext) (e : Elem) (vs : List (List Char)) :
+    ∀ b : VB, b.errors = 0 → (∀ v ∈ vs, (parseElem ext e v).isSome = true) →
+      ∃ tmp, sliceLoop ext e b vs = (b, some tmp) ∧ vs.map (parseElem ext e) = tmp.map some := by
+  induction vs with
+  | nil => intro b _ _; exact ⟨[], by simp [sliceLoop], by simp⟩
+  | cons v vs ih =>
+    intro b h0 hall
+    have hv := hall v (by simp)
+    obtain ⟨tmp, ht, hm⟩ := ih b h0 (fun w hw => hall w (by simp [hw]))
+    have hf : b.frozen = false := by simp [VB.frozen, h0]
+    cases hp : parseElem ext e v with
+    | none => rw [hp] at hv; cases hv
+    | some x =>
+      refine ⟨x :: tmp, ?_, by simp [hp, hm]⟩
+      unfold sliceLoop
+      simp only [hp, hf, Bool.false_eq_true, if_false, ht, Option.map_some]
+
+/-- one text that does not fit, anywhere in the list: the loop records an error -/
+theorem sliceLoop_bad (ext : Ext) (e : Elem) (vs : List (List Char)) :
+    ∀ b : VB, b.frozen = false → (∃ v ∈ vs, parseElem ext e v = none) →
+      b.errors < (sliceLoop ext e b vs).1.errors := by
+  induction vs with
+  | nil => intro b _ h; obtain ⟨_, hm, _⟩ := h; cases hm
+  | cons v vs ih =>
+    intro b hf hbad
+    unfold sliceLoop
+    cases hp : parseElem ext e v with
+    | some x =>
+      simp only [hf, Bool.false_eq_true, if_false]
+      apply ih b hf
+      obtain ⟨w, hw, hn⟩ := hbad
+      cases List.mem_cons.mp hw with
+      | inl e' => subst e'; rw [hp] at hn; cases hn
+      | inr e' => exact ⟨w, e', hn⟩
+    | none =>
+      simp only
+      split
+      · simp [VB.addErr]
+      · have := (sliceLoop_mono ext e vs b.addErr).1
+        simp only [VB.addErr] at this ⊢
+        omega
+
+/-- **C08_slice_complete** — a slice / delimiter call on a binder that holds no error, parameter
+    present, every piece convertible — for a list of pieces of ANY length: the destination holds the
+    conversion of EVERY piece (as many elements as pieces, in order), nothing is recorded.
+    (The converse of `C08_slice_all_or_nothing`: "untouched" is not an option for valid input.) -/
+theorem C08_slice_complete (ext : Ext) (b : VB) (c : Call) (hs : c.shape ≠ .scalar) (h0 : b.errors = 0)
+    (hv : c.values ≠ []) (hsup : c.shape = .delim → c.supported = true)
+    (hall : ∀ p ∈ c.pieces, (parseElem ext c.elem p).isSome = true) :
+    ∃ tmp, callStep ext b c = (b, .slice (some tmp))
+      ∧ c.pieces.map (parseElem ext c.elem) = tmp.map some ∧ tmp.length = c.pieces.length := by
+  have hf : b.frozen = false := by simp [VB.frozen, h0]
+  have hlen : ∀ (ps : List (List Char)) (tmp : List SVal), ps.map (parseElem ext c.elem) = tmp.map some →
+      tmp.length = ps.length := by
+    intro ps tmp h; have := congrArg List.length h; simpa using this.symm
+  unfold callStep
+  cases hsh : c.shape with
+  | scalar => exact absurd hsh hs
+  | slice =>
+    have hpc : c.pieces = c.values := by simp [Call.pieces, hsh]
+    simp only
+    unfold sliceCall
+    simp only [hf, Bool.false_eq_true, if_false, hv]
+    split
+    · rename_i he
+      refine ⟨c.values.map .opq, rfl, ?_, by simp [hpc]⟩
+      simp [hpc, he, parseElem]
+    · obtain ⟨tmp, ht, hm⟩ := sliceLoop_all_good ext c.elem c.values b h0 (by rw [← hpc]; exact hall)
+      refine ⟨tmp, ?_, by rw [hpc]; exact hm, by rw [hpc]; exact hlen _ _ hm⟩
+      simp [sliceAssign, ht, h0]
+  | delim =>
+    have hpc : c.pieces = c.values.flatMap (split c.delim) := by simp [Call.pieces, hsh]
+    simp only
+    unfold delimCall
+    simp only [hf, Bool.false_eq_true, if_false, hv, hsup hsh, not_true_eq_false]
+    split
+    · rename_i he
+      refine ⟨(c.values.flatMap (split c.delim)).map .opq, rfl, ?_, by simp [hpc]⟩
+      simp [hpc, he, parseElem]
+    · obtain ⟨tmp, ht, hm⟩ := sliceLoop_all_good ext c.elem (c.values.flatMap (split c.delim)) b h0 (by rw [← hpc]; exact hall)
+      refine ⟨tmp, ?_, by rw [hpc]; exact hm, by rw [hpc]; exact hlen _ _ hm⟩
+      simp [sliceAssign, ht, h0]
+
+/-- **C08_slice_bad_piece_reported** — an unfrozen slice / delimiter call, parameter present, with a
+    piece that does not fit at ANY position of a list of ANY length: at least one error is recorded
+    and the destination is untouched -/
+theorem C08_slice_bad_piece_reported (ext : Ext) (b : VB) (c : Call) (hs : c.shape ≠ .scalar)
+    (hf : b.frozen = false) (hv : c.values ≠ []) (hsup : c.shape = .delim → c.supported = true)
+    (hbad : ∃ p ∈ c.pieces, parseElem ext c.elem p = none) :
+    b.errors < (callStep ext b c).1.errors ∧ (callStep ext b c).2 = c.init := by
+  have key : b.errors < (callStep ext b c).1.errors := by
+    unfold callStep
+    cases hsh : c.shape with
+    | scalar => exact absurd hsh hs
+    | slice =>
+      have hpc : c.pieces = c.values := by simp [Call.pieces, hsh]
+      simp only
+      unfold sliceCall
+      simp only [hf, Bool.false_eq_true, if_false, hv]
+      split
+      · rename_i he
+        obtain ⟨p, _, hn⟩ := hbad
+        rw [he] at hn; simp [parseElem] at hn
+      · have := sliceLoop_bad ext c.elem c.values b hf (by rw [← hpc]; exact hbad)
+        unfold sliceAssign
+        split <;> rename_i b1 _ hr <;> rw [hr] at this
+        · exact this
+        · split <;> exact this
+    | delim =>
+      have hpc : c.pieces = c.values.flatMap (split c.delim) := by simp [Call.pieces, hsh]
+      simp only
+      unfold delimCall
+      simp only [hf, Bool.false_eq_true, if_false, hv, hsup hsh, not_true_eq_false]
+      split
+      · rename_i he
+        obtain ⟨p, _, hn⟩ := hbad
+        rw [he] at hn; simp [parseElem] at hn
+      · have := sliceLoop_bad ext c.elem (c.values.flatMap (split c.delim)) b hf (by rw [← hpc]; exact hbad)
+        unfold sliceAssign
+        split <;> rename_i b1 _ hr <;> rw [hr] at this
+        · exact this
+        · split <;> exact this
+  exact ⟨key, C08_error_leaves_dest ext b c (by omega)⟩
+
+-- round 8 --------------------------------------------------------------------------------------
+
+-- 1025 values for a `[]int8` field: 1024 sevens and then 128.  The 1025th text is converted — and rejected
+example : ∃ v, bindField noExt ⟨.slice, .num (.structInt .w8), .nil, some (List.replicate 1024 ['7'] ++ [['1','2','8']])⟩ = .err v :=
+  (C08_every_value_counts noExt ⟨.slice, .num (.structInt .w8), .nil, some (List.replicate 1024 ['7'] ++ [['1','2','8']])⟩ _
+    rfl rfl (List.append_ne_nil_of_right_ne_nil _ (by simp))).2 (List.replicate 1024 ['7']) ['1','2','8'] [] rfl (by decide +kernel)
+-- all 1025 valid: the field holds 1025 elements
+example : bindField noExt ⟨.ptrToSlice, .num (.structInt .w8), .nil, some (List.replicate 1025 ['7'])⟩
+    = .ok (.many (List.replicate 1025 (.int 7))) := by decide +kernel
+-- `Int16s` with 1025 values on a fresh fail-fast binder: all stored
+def exMany : Call := ⟨.num (.vbInts .w16), .slice, false, true, List.replicate 1025 ['7'], [], .slice none⟩
+example : ∃ tmp, callStep noExt (vb 0 true) exMany = (vb 0 true, .slice (some tmp)) ∧ tmp.length = 1025 := by
+  obtain ⟨tmp, h1, _, h3⟩ := C08_slice_complete noExt (vb 0 true) exMany (by decide) rfl (by decide) (by decide)
+    (by intro p hp
+        have : p = ['7'] := by
+          simp only [Call.pieces, exMany] at hp
+          exact List.eq_of_mem_replicate hp
+        subst this; decide +kernel)
+  exact ⟨tmp, h1, by rw [h3]; decide +kernel⟩
+-- … and with `x` as the 1025th value: reported, destination untouched
+example : (callStep noExt (vb 0 false) { exMany with values := List.replicate 1024 ['7'] ++ [['x']] }).2 = .slice none :=
+  (C08_slice_bad_piece_reported noExt (vb 0 false) { exMany with values := List.replicate 1024 ['7'] ++ [['x']] }
+    (by decide) rfl (List.append_ne_nil_of_right_ne_nil _ (by simp)) (by decide) ⟨['x'], by decide +kernel, by decide +kernel⟩).2
 
 end C08
